@@ -73,4 +73,41 @@ func init() {
 		Assumptions: []string{"strconv.AppendFloat(_, f, 'g', -1, 64) emits one token of [0-9+-.eE] characters that strconv.ParseFloat maps back to exactly f (strconv's shortest round-trip contract; executed for real in the native trace-conformance runs)"},
 		Outside:     []string{"the digits themselves", "member counts above the bound"},
 	})
+	reg(&Property{
+		ID: "C06", Pkgs: []string{"encoding/geojson"}, Level: "model_checking",
+		Rule: "one evaluation = one explored path (a geometry shape) with all coordinates free finite doubles; non-trivial = path ends with all assertions discharged",
+		Bounds: map[string]string{
+			"coordinates": "all finite float64 bit patterns (non-finite ones in the rejection harness)",
+			"shapes":      "1..3 members x 1..3 rings x 0..3(4) vertices, first member non-empty",
+		},
+		Assumptions: []string{"encoding/json by contract: Marshal fails iff a float is non-finite; Unmarshal(Marshal(v)) is the generic image of v with numbers round-tripping exactly (executed for real in the native trace-conformance runs)"},
+		Outside:     []string{"the decimal text itself (encoding/json's formatting)", "member counts above the bound"},
+	})
+	reg(&Property{
+		ID: "C07", Pkgs: []string{"encoding/wkb", "encoding/hex", "encoding/geojson"}, Level: "model_checking",
+		Rule: "one evaluation = one explored decoder path over a buffer of symbolic bytes (byte order, type codes, counts case-split by the solver) or over a generic JSON value tree; non-trivial = path ends with all assertions discharged",
+		Opts: []HarnessOpt{
+			{Prefix: "VH_C07_", Alloc: true, MaxSplit: 3, MaxUnwind: 16, MaxSteps: 20_000_000},
+			{Prefix: "VH_C07_wkb_len22to26", Alloc: true, MaxSplit: 3, MaxUnwind: 16, MaxSteps: 20_000_000, ThoroughOnly: true},
+			{Prefix: "VH_C07_wkb_len27to30", Alloc: true, MaxSplit: 2, MaxUnwind: 16, MaxSteps: 20_000_000, ThoroughOnly: true},
+		},
+		Bounds: map[string]string{
+			"wkb":     "all byte strings of length 0..21 (quick) / 0..30 (thorough); count fields case-split 0..3 plus one representative large value per count",
+			"geojson": "Geometry values: 8 type strings x generic coordinate trees of depth <=4, width <=2(3)",
+			"memory":  "every make/append metered: total <= 64*len(input)+16MiB",
+		},
+		Assumptions: []string{"encoding/binary.Read allocates a scratch buffer of the full encoded size before reading (as the real one does); io.ReadFull and bytes.Buffer are executed from their real SSA"},
+		Outside:     []string{"inputs longer than the bound (64 KiB in the property)", "JSON text parsing (encoding/json)"},
+	})
+	reg(&Property{
+		ID: "C16", Pkgs: []string{"encoding/shp"}, Level: "model_checking",
+		Opts: []HarnessOpt{{Prefix: "VH_C16_", IfConv: true}},
+		Rule: "one evaluation = one explored path (geometry type, part/ring/vertex counts, closedness of each ring) with all coordinates free 64-bit patterns; non-trivial = path ends with all assertions discharged",
+		Bounds: map[string]string{
+			"coordinates": "all 2^64 bit patterns per coordinate",
+			"shapes":      "1..3 parts/rings x 1..3 vertices (4 for single-part types)",
+		},
+		Assumptions: []string{"go-shp's file writer and reader return the shape values they are given (identity on Parts/Points); NewPolyLine/flatten/BBox of go-shp are executed from their real SSA"},
+		Outside:     []string{"shapefile/DBF files, record order and number, all attribute clauses (integers, strings <=50 bytes, floats to 10 decimals, tag/name matching): they run through os files, go-shp's DBF code and reflect over user structs"},
+	})
 }
